@@ -247,10 +247,18 @@ fn spell_refs(cons: &[Con], prefix: &str) -> Vec<Con> {
 }
 
 fn size_text(c: &Case) -> String {
-    if c.split_size {
-        cons_text(&split_size(&c.cons))
+    // (ValueRefs: the ends of the SIZE ranges are spelled as value references)
+    let spelled;
+    let cons = if c.place == Place::ValueRefs {
+        spelled = spell_refs(&c.cons, "v");
+        &spelled
     } else {
-        cons_text(&wrap_size(&c.cons, c.outer_marker))
+        &c.cons
+    };
+    if c.split_size {
+        cons_text(&split_size(cons))
+    } else {
+        cons_text(&wrap_size(cons, c.outer_marker))
     }
 }
 
@@ -879,7 +887,7 @@ fn random_case(src: &mut Src) -> Case {
     let place = if host == Host::Integer {
         [Place::Assignment, Place::Component, Place::OnParent, Place::ValueRefs, Place::NamedNumbers, Place::NamedViaRef, Place::NamedOnComponent][src.pick(7)]
     } else {
-        [Place::Assignment, Place::Component][src.pick(2)]
+        [Place::Assignment, Place::Component, Place::ValueRefs][src.pick(3)]
     };
     let outer_marker = host != Host::Integer && src.chance(30);
     let ref_component = place == Place::OnParent && src.chance(50);
@@ -978,6 +986,14 @@ pub fn run(tier: Tier, seed: u64, replay: Option<String>) -> i32 {
                 cases.push(Case { host: Host::Integer, place, cons: vec![with_ext(e.clone(), false)], outer_marker: false, ref_component: false, split_size: false });
             }
             cases.push(Case { host: Host::Integer, place: Place::OnParent, cons: vec![with_ext(e.clone(), false)], outer_marker: false, ref_component: true, split_size: false });
+        }
+    }
+    // SIZE ranges whose ends are value references, on every kind of sized type
+    for host in [Host::OctetString, Host::BitString, Host::Ia5, Host::SeqOf, Host::SetOf] {
+        for a in size_operands() {
+            for ext in [false, true] {
+                cases.push(Case { host, place: Place::ValueRefs, cons: vec![with_ext(ESet { all_except: None, unions: vec![vec![ie(&a)]], words: false }, ext)], outer_marker: false, ref_component: false, split_size: false });
+            }
         }
     }
     ctx.extra.insert("exhaustive_cases".into(), json!(cases.len()));
